@@ -134,7 +134,7 @@ def validate_bundle(base, cfg="MeldaTrace.cfg", timeout=1800, module="MeldaTrace
             m = STATS_RE.search(line)
             if m:
                 res["states"] = int(m.group(2))
-    for n, c in re.findall(r'<<"(C\d\d_[A-Za-z0-9_]+)", (\d+)>>', out):
+    for n, c in re.findall(r'<<"((?:C\d\d|D|X)_[A-Za-z0-9_]+)", (\d+)>>', out):
         res["counts"][n] = int(c)
     if res["consumed"] != res["total"] or "Error:" in out:
         res["error"] = out[-3000:]
